@@ -221,7 +221,7 @@ def run_nbs(fn, x, y, p, rng):
     xa, ya = x.copy(), y.copy()
     if p.get('layout') == 'F':
         xa, ya = np.asfortranarray(xa), np.asfortranarray(ya)  # column-major stacks (np.dstack / MATLAB files)
-    return fn(xa, ya, p['thresh'], k=p['k'], tail=p['tail'], paired=p['paired'], seed=rng)
+    return fn(xa, ya, p['thresh'], k=p['k'], tail=p['tail'], paired=p['paired'], verbose=bool(p.get('verbose')), seed=rng)
 
 
 def execute(case, mode, fn=None, label='nbs_bct'):
@@ -366,6 +366,8 @@ class _Scn(object):
              'tail': rnd.choice(('both', 'left', 'right')), 'paired': paired}
         if rnd.random() < 0.1:
             p['layout'] = 'F'
+        if rnd.random() < 0.05:
+            p['verbose'] = True  # the per-permutation reporting path
         pol = rewire.pick_policy(rnd)
         if pol['name'] != 'fair':
             pol = dict(pol, rate=rnd.choice((0.1, 0.3, 0.6)), burst=rnd.choice((1, 2, 3)), site_frac=1.0)
@@ -456,7 +458,7 @@ def pool_call(x, y, p, seed, workers, mp):
     saved = (NP.multiprocessing, NP.get_rng)
     NP.multiprocessing, NP.get_rng = mp, rec
     try:
-        out = NP.nbs_bct(x.copy(), y.copy(), p['thresh'], k=p['k'], tail=p['tail'], paired=p['paired'], seed=seed, workers=workers)
+        out = NP.nbs_bct(x.copy(), y.copy(), p['thresh'], k=p['k'], tail=p['tail'], paired=p['paired'], verbose=bool(p.get('verbose')), seed=seed, workers=workers)
     finally:
         NP.multiprocessing, NP.get_rng = saved
     return out, rec
